@@ -1407,6 +1407,30 @@ func ruleProvManip(c *Ctx, r *Rep) {
 	}
 	seenT := map[string]bool{}
 	pv.inFrames(body, 2, nil, func(fr frame) {
+		// a manipulated field keeps the manipulation: nothing stored into the same field afterwards (a snapshot of the
+		// genuine value written back while the other half of a structure is manipulated) replaces it
+		{
+			all := storesIntoType(c, fr.fn, "cert.TbsCertificate")
+			for _, m := range all {
+				if _, ok := wantTbs[m.field]; !ok || m.whole {
+					continue
+				}
+				if o := pv.here(m.val()); !(len(o) >= 1 && strings.Contains(strings.Join(o, ","), ".Manipulations.")) {
+					continue
+				}
+				for _, o2 := range all {
+					if o2.field != m.field || o2.whole || o2.st == m.st {
+						continue
+					}
+					if strings.Contains(strings.Join(pv.here(o2.val()), ","), ".Manipulations.") {
+						continue
+					}
+					if reachableFromInstr(m.st, o2.st) {
+						r.Bad("manipulation-survives|"+m.field, c.Pos(o2.st.Pos()), "no later store replaces a manipulated TBS field", "a store of "+strings.Join(head(pv.here(o2.val()), 2), ",")+" can follow the manipulation")
+					}
+				}
+			}
+		}
 		for _, fs := range storesIntoType(c, fr.fn, "cert.TbsCertificate") {
 			w, ok := wantTbs[fs.field]
 			if !ok {
